@@ -157,7 +157,8 @@ func (c *Ctx) Sample(v any) {
 // SampleEvery records v when the evaluation counter is a multiple of n, so
 // that samples are spread over the run.
 func (c *Ctx) SampleEvery(n int64, v func() any) {
-	if len(c.res.Samples) < c.sampleCap && c.res.Evaluations%n == 0 {
+	// The first call always records, so that no shard ends without a sample.
+	if len(c.res.Samples) < c.sampleCap && (len(c.res.Samples) == 0 || c.res.Evaluations%n == 0) {
 		c.res.Samples = append(c.res.Samples, v())
 	}
 }
